@@ -333,6 +333,88 @@ pub fn exec(op: &str, a: &[u64]) -> Result<Outcome, String> {
             o.check(after.is_none(), "iterator yields again after reporting the end");
             Ok(o)
         }
+        "pipedeep" => {
+            // a processing function that needs `kib` KiB of stack on some items (far below the 2 MiB a spawned thread
+            // gets by default): the piped map must still be the sequential map, for every worker count.  Runs in a
+            // child process because a stack overflow aborts the process.
+            let w = r.usize()?;
+            let n = r.usize()?;
+            let kib = r.nat()?;
+            r.end()?;
+            let exe = std::env::current_exe().map_err(|e| e.to_string())?;
+            let status = std::process::Command::new(exe)
+                .args(["deep-child", &w.to_string(), &n.to_string(), &kib.to_string()])
+                .stdout(std::process::Stdio::null())
+                .stderr(std::process::Stdio::null())
+                .status()
+                .map_err(|e| e.to_string())?;
+            let mut o = Outcome::new(format!("ok {n}"));
+            o.check(status.code() == Some(0), "piped map of a processing function with an ordinary stack need is not the sequential map (worker threads died or the output differs)");
+            Ok(o)
+        }
+        "pipeidle" => {
+            // free-running Pipe (real OS schedule) over a long upstream whose length is visible (sized = 1: exact
+            // size hint) or hidden (sized = 0: behind a filter): consume k items, let the workers run ahead while the
+            // consumer idles, then drop the pipe.  The lookahead must not depend on the input length.
+            let w = r.usize()?;
+            let n = r.nat()?;
+            let k = r.usize()?;
+            let sized = r.bool()?;
+            r.end()?;
+            Sched::uninstall();
+            let pulled = Arc::new(AtomicUsize::new(0));
+            let p2 = pulled.clone();
+            let src: Box<dyn Iterator<Item = u64> + Send> = if sized {
+                Box::new((0..n).map(move |i| {
+                    p2.fetch_add(1, Ordering::SeqCst);
+                    i
+                }))
+            } else {
+                Box::new((0..n).filter(move |_| {
+                    p2.fetch_add(1, Ordering::SeqCst);
+                    true
+                }))
+            };
+            let pipeline: Arc<dyn Fn(u64) -> u64 + Send + Sync> = Arc::new(f);
+            let mut it = src.pipe(pipeline, w as u8);
+            let mut got = vec![];
+            for _ in 0..k {
+                match it.next() {
+                    Some(v) => got.push(v),
+                    None => break,
+                }
+            }
+            // wait until the pull counter has been stable for a while (at most a few seconds)
+            let stable = |pulled: &AtomicUsize| {
+                let start = std::time::Instant::now();
+                let mut last = pulled.load(Ordering::SeqCst);
+                let mut since = std::time::Instant::now();
+                while start.elapsed() < Duration::from_secs(10) {
+                    std::thread::sleep(Duration::from_millis(10));
+                    let cur = pulled.load(Ordering::SeqCst);
+                    if cur != last {
+                        last = cur;
+                        since = std::time::Instant::now();
+                    } else if since.elapsed() > Duration::from_millis(150) {
+                        break;
+                    }
+                }
+                last
+            };
+            let ahead = stable(&pulled);
+            drop(it);
+            let after = stable(&pulled);
+            let mut o = Outcome::new(format!("ok {}", got.len()));
+            o.check(got.iter().enumerate().all(|(i, v)| *v == f(i as u64)), "received sequence is not f(x0), f(x1), ... in order");
+            if w > 0 {
+                // each worker holds at most one item, the channel at most `threads` results
+                o.check(ahead <= got.len() + 2 * w + 1, "workers pulled more than consumed + 2 * threads + 1 items while the consumer was idle (lookahead depends on the input length)");
+                o.check(after <= got.len() + 3 * w + 1, "workers kept pulling after the consumer dropped the iterator");
+            } else {
+                o.check(ahead <= got.len() && after <= got.len(), "unthreaded pipe pulled ahead of the consumer");
+            }
+            Ok(o)
+        }
         "bufdrop" => {
             // Buffered over an effectively unbounded upstream: consume k items, check the lookahead, drop, check the stop
             let b = r.usize()?;
@@ -433,6 +515,41 @@ pub fn panic_child(w: usize, n: usize, j: usize) -> ! {
     });
     let out: Vec<u64> = (0..n as u64).pipe(pipeline, w as u8).collect();
     std::process::exit(if out.len() == n { 0 } else { 7 })
+}
+
+/// a pure function that needs about `kib` KiB of stack for the items with x % 7 == 3 (recursion with a 1 KiB frame)
+#[inline(never)]
+fn deep(x: u64, depth: u64) -> u64 {
+    let mut buf = [0u8; 1024];
+    buf[(x % 1024) as usize] = depth as u8;
+    let b = std::hint::black_box(&mut buf);
+    if depth == 0 {
+        return x.wrapping_mul(31) + b[(x % 1024) as usize] as u64;
+    }
+    deep(x.wrapping_add(b[0] as u64), depth - 1).wrapping_add(b[(depth % 1024) as usize] as u64)
+}
+
+fn f_deep(x: u64, kib: u64) -> u64 {
+    if x % 7 == 3 {
+        deep(x, kib)
+    } else {
+        f(x)
+    }
+}
+
+/// child process: the piped map with a processing function that needs a deep (but ordinary: well below the default
+/// thread stack) stack; exit code 0 iff the output is the sequential map
+pub fn deep_child(w: usize, n: usize, kib: u64) -> ! {
+    // the sequential reference runs on a thread with a generous stack
+    let want: Vec<u64> = std::thread::Builder::new()
+        .stack_size(64 << 20)
+        .spawn(move || (0..n as u64).map(|x| f_deep(x, kib)).collect())
+        .unwrap()
+        .join()
+        .unwrap();
+    let pipeline: Arc<dyn Fn(u64) -> u64 + Send + Sync> = Arc::new(move |x| f_deep(x, kib));
+    let out: Vec<u64> = (0..n as u64).pipe(pipeline, w as u8).collect();
+    std::process::exit(if out == want { 0 } else { 7 })
 }
 
 pub fn emit_trace(ctx: &mut Ctx, w: usize, n: usize, evs: &[Ev]) {
@@ -566,6 +683,13 @@ pub fn run_c05(ctx: &mut Ctx) {
             ctx.case("pipeslow", &[w, n, j, ms]);
         }
     }
+    // a processing function with a deep (but ordinary) stack need, in a child process
+    if ctx.first_shard() {
+        let deepc: &[(u64, u64, u64)] = if ctx.thorough { &[(0, 20, 600), (1, 20, 600), (4, 40, 900), (2, 30, 400)] } else { &[(0, 12, 600), (3, 24, 600)] };
+        for &(w, n, kib) in deepc {
+            ctx.case("pipedeep", &[w, n, kib]);
+        }
+    }
     // uncontrolled stress
     let n_stress = ctx.budget(40, 1500);
     for _ in 0..n_stress {
@@ -610,6 +734,14 @@ pub fn run_c09(ctx: &mut Ctx) {
         let k = ctx.rng.random_range(0..=20u64);
         let n = if i % 3 == 0 { ctx.rng.random_range(0..=30u64) } else { 0 };
         ctx.case("bufdrop", &[b, k, n]);
+    }
+    // free-running lookahead over long inputs whose length is visible / hidden to the pipe
+    let ni = ctx.budget(6, 60);
+    for i in 0..ni {
+        let w = ctx.rng.random_range(0..=4u64);
+        let n = [50u64, 3000, 20000][ctx.rng.random_range(0..3)];
+        let k = ctx.rng.random_range(0..=10u64);
+        ctx.case("pipeidle", &[w, n, k, i % 2]);
     }
     // a panic in the very first item while the constructor is still spawning workers
     if ctx.first_shard() {
